@@ -3,10 +3,11 @@
 # that property, record exit code and the VIOLATION lines in seeded/<ID>/check_output.txt, and restore /repo straight afterwards.
 # Expected: exit 1 with at least one VIOLATION line for every seed. Nothing is committed to /repo.
 VERIF="$(cd "$(dirname "$0")/.." && pwd)"; cd "$VERIF"
-IDS="${*:-$(ls seeded | grep '^C[0-9][0-9][bcdef]\?$')}"
-exec 9>/tmp/verif_repo.lock; flock 9
+IDS="${*:-$(ls seeded | grep '^C[0-9][0-9][bcdefg]\?$')}"
+exec 9>/tmp/verif_repo.lock
 RC=0
 for id in $IDS; do
+  flock 9   # one seed at a time holds /repo; other users get a turn between seeds
   git -C /repo status --porcelain --untracked-files=no | grep -q . && { echo "/repo has uncommitted changes"; exit 2; }
   git -C /repo apply "$VERIF/seeded/$id/patch.diff" || { echo "$id apply FAILED"; RC=1; continue; }
   P=${id:0:3}   # seeded/C07b is a second seed for property C07
@@ -19,6 +20,7 @@ for id in $IDS; do
     N=$(echo "$OUT" | grep -c '^VIOLATION'); echo "$id check=$c exit=$E violations=$N"; [ "$E" = "1" ] && [ "$N" -ge 1 ] && OK=1
   done
   git -C /repo checkout -- .
+  flock -u 9
   [ "$OK" = "1" ] || { echo "$id NOT DETECTED"; RC=1; }
 done
 exit $RC
